@@ -7,7 +7,8 @@
 //
 //	call    {t, kind, p, x, traff, avail}  goroutine t starts Credit / Debit /
 //	        NotifyPayment / Reserve; the event says where it is afterwards:
-//	        "gate" (parked inside PutRetrieveTraffic / TransferTraffic /
+//	        "gate" (parked inside RetrieveTraffic -- the first contact with a peer,
+//	        made under the map mutex -- / PutRetrieveTraffic / TransferTraffic /
 //	        PutTransferTraffic / AvailableBalance), "ret", or "blocked" (its
 //	        goroutine sits in sync.Mutex.Lock)
 //	release {t}   the stub call of t returns (TransferTraffic answers `traff`,
@@ -132,6 +133,10 @@ func (s *stub) RetrieveTraffic(peer boson.Address) (*big.Int, error) {
 	if s.ctl == nil {
 		return big.NewInt(0), nil
 	}
+	// first contact with a peer: a gate for scenario goroutines (the controller's own calls pass)
+	if _, err, gated := s.ctl.Gate("retrieve_traffic", map[string]interface{}{"p": s.peer(peer)}); gated && err != nil {
+		return nil, err
+	}
 	return big.NewInt(s.init[s.peer(peer)]), nil
 }
 
@@ -230,6 +235,22 @@ type run struct {
 	thr int64
 	// the sentinel's payment request did not come through once: do not wait for it again
 	noFlush bool
+	// fresh: accounting must not see a peer before the scenario touches it (no probe of untouched peers)
+	fresh   bool
+	touched map[int]bool
+	// a flush of the pay channel is owed (it was not possible while a goroutine held the map mutex)
+	flushWanted bool
+}
+
+// mapHeld: a scenario goroutine is parked in its first contact, i.e. holds (in the original code) the map mutex;
+// any call of the controller into the object would wait for it.
+func (r *run) mapHeld() bool {
+	for t := 1; t <= nThreads; t++ {
+		if parked, at := r.ctl.Parked(t); parked && at.Point == "retrieve_traffic" {
+			return true
+		}
+	}
+	return false
 }
 
 func (r *run) fields(ev kit.Ev, t int, s sched.Status) (returned bool) {
@@ -277,6 +298,10 @@ func (r *run) probe() [][]bool {
 	out := [][]bool{}
 	for p := 1; p <= nPeers; p++ {
 		row := []bool{}
+		if r.fresh && !r.touched[p] {
+			out = append(out, row) // not probed: the probe itself would be the first contact
+			continue
+		}
 		for k := probeLo; k <= probeHi; k++ {
 			r.st.setAvail(int64(k))
 			err := r.acc.Reserve(settle.Overlay(p), 0)
@@ -289,13 +314,19 @@ func (r *run) probe() [][]bool {
 
 // finish an event: pay requests (if a credit may have issued one) and the probe (if nothing is in flight)
 func (r *run) emit(ev kit.Ev, flush bool) error {
-	ev["pays"], ev["paythr"], ev["flushed"] = []int{}, []int64{}, true
-	if flush {
-		p, t, ok, err := r.flushPays()
-		if err != nil {
-			return err
+	ev["pays"], ev["paythr"], ev["flushed"], ev["deferred"] = []int{}, []int64{}, true, false
+	r.flushWanted = r.flushWanted || flush
+	if r.flushWanted {
+		if r.mapHeld() {
+			ev["deferred"] = true // reported with a later event
+		} else {
+			p, t, ok, err := r.flushPays()
+			if err != nil {
+				return err
+			}
+			ev["pays"], ev["paythr"], ev["flushed"] = p, t, ok
+			r.flushWanted = false
 		}
-		ev["pays"], ev["paythr"], ev["flushed"] = p, t, ok
 	}
 	ev["idle"] = !r.ctl.AnyRunning()
 	ev["probe"] = [][]bool{}
@@ -368,8 +399,9 @@ func runForced(sc kit.Scenario, out *kit.Out) error {
 	}
 	thr, tol := int64(kit.Int(sc.Par, "thr")), int64(kit.Int(sc.Par, "tol"))
 	acc := accounting.NewAccounting(big.NewInt(tol), big.NewInt(thr), settle.Logger(), nil, st)
-	r := &run{acc: acc, st: st, ctl: ctl, out: out, cur: map[int]call{}, blk: map[int]bool{}, thr: thr}
-	out.Begin(sc.Scn, kit.Ev{"mode": "forced", "thr": thr, "tol": tol, "init": []int64{st.init[1], st.init[2]}, "probe": r.probe()})
+	r := &run{acc: acc, st: st, ctl: ctl, out: out, cur: map[int]call{}, blk: map[int]bool{}, thr: thr,
+		fresh: kit.Bool(sc.Par, "fresh"), touched: map[int]bool{}}
+	out.Begin(sc.Scn, kit.Ev{"mode": "forced", "thr": thr, "tol": tol, "fresh": r.fresh, "init": []int64{st.init[1], st.init[2]}, "probe": r.probe()})
 	for _, op := range sc.Ops {
 		t := kit.Int(op, "t")
 		switch kit.Str(op, "op") {
@@ -387,12 +419,13 @@ func runForced(sc kit.Scenario, out *kit.Out) error {
 			if ctl.Running(t) {
 				ev := kit.Ev{"op": "skipped"}
 				r.fields(ev, t, sched.Status{Kind: "none"})
-				ev["pays"], ev["paythr"], ev["flushed"], ev["idle"], ev["probe"] = []int{}, []int64{}, true, false, [][]bool{}
+				ev["pays"], ev["paythr"], ev["flushed"], ev["deferred"], ev["idle"], ev["probe"] = []int{}, []int64{}, true, false, false, [][]bool{}
 				out.Emit(ev)
 				continue
 			}
 			c := callOf(op)
 			r.cur[t] = c
+			r.touched[c.P] = true
 			ctl.Start(t, func() interface{} { return c.run(acc) })
 			ev := kit.Ev{"op": "call"}
 			ret := r.fields(ev, t, ctl.Wait(t))
@@ -435,7 +468,7 @@ func runForced(sc kit.Scenario, out *kit.Out) error {
 			if ctl.AnyRunning() {
 				ev := kit.Ev{"op": "stuck"}
 				r.fields(ev, 0, sched.Status{Kind: "none"})
-				ev["pays"], ev["paythr"], ev["flushed"], ev["idle"], ev["probe"] = []int{}, []int64{}, true, false, [][]bool{}
+				ev["pays"], ev["paythr"], ev["flushed"], ev["deferred"], ev["idle"], ev["probe"] = []int{}, []int64{}, true, false, false, [][]bool{}
 				out.Emit(ev)
 				break
 			}
